@@ -7,7 +7,7 @@ ALL = ["C%02d" % i for i in range(1, 21)]
 CHECKS = {
  "C01": dict(cat="model_checking", engine="chanmc",
    technique="explicit-state model checking of the real two-peer LightningChannel system: all interleavings of sends/in-order deliveries, canonical-state dedup, successor = replay on a fresh instance",
-   text="Every reachable state of bounded two-peer scripts (<=3 HTLCs, sequences of up to three fee updates incl. reverts to a rate in use, dust-straddling amounts, duplicates, 7 channel types, both openers) is visited on the real lnwallet state machines; each transition is judged by signature-verifies, msat conservation, exact-balance, fee/dust/tx-output and mirror oracles computed from the explorer's own HTLC table.",
+   text="Every reachable state of bounded two-peer scripts (<=3 HTLCs, sequences of up to three fee updates incl. reverts to a rate in use, dust-straddling amounts, duplicates, 7 channel types, both openers) is visited on the real lnwallet state machines; each transition is judged by signature-verifies, msat conservation, exact-balance, fee/dust/tx-output and mirror oracles computed from the explorer's own HTLC table. Further families: every type x opener x offerer with one HTLC first (breadth), per-party channel bounds (max_accepted_htlcs / max pending / htlc_minimum) at their boundaries and differing per side, a non-opener starting at exactly 0 with balances at the dust limits, and sign-before-revoke orders (the answer to a commitment_signed is a step of its own, so a party may sign, add or resolve between ReceiveNewCommitment and RevokeCurrentCommitment).",
    note="Bounded scripts and amount alphabet; canonical key drops signatures/nonces/txids (argued in engine/chanmc/world.go); kvdb atomicity.", ref="§4 C01"),
  "C02": dict(cat="fault_enumeration", engine="chanmc+crashdb",
    technique="exhaustive crash-point enumeration: a crash (both sides reload from disk) after every state-machine call of every explored schedule, incl. a second crash; durable-writes-per-step measured by a kvdb wrapper",
@@ -49,7 +49,7 @@ CHECKS.update({
    note="Contract assumptions (contiguous outgoing HTLC ids; Commit||Delete and Open||Delete of the same key never concurrent; no delete of a circuit whose outgoing HTLC is uncommitted) are listed in evidence.assumptions; data races are covered by the thorough-only -race target.", ref="§4 C07"),
  "C17": dict(cat="exploration", engine="chanmc+grid (in-harness)",
    technique="lattice enumeration on the real close code with a reference model written from the property statement (exact outputs, conservation, byte-identical transactions on both sides), independent ECDSA verification and the btcd script interpreter as oracle; two real ChanClosers and the rbf_coop state machines driven synchronously",
-   text="Balance x fee x dust x role x type lattice on CoopCloseBalance/CreateCooperativeCloseTx and on real channels (all 7 types, both openers, legacy + RBF options, p2wkh/p2wsh/p2tr pairs); all ideal-fee pairs in [100,700]^2 (thorough; quick = step 7 + near-diagonal) between two real ChanClosers; rbf_coop state machines driven through ProcessEvent over fee ladders.",
+   text="Balance x fee x dust x role x type lattice on CoopCloseBalance/CreateCooperativeCloseTx and on real channels (all 7 types, both openers, legacy + RBF options, p2wkh/p2wsh/p2tr pairs); all ideal-fee pairs in [100,700]^2 (thorough; quick = step 7 + near-diagonal) between two real ChanClosers; rbf_coop state machines driven through ProcessEvent over fee ladders. OP_RETURN delivery scripts (pure lattice and real channels) and the BIP69 tie fee (both outputs equal) are in the lattices.",
    note="protofsm goroutine executor, link flushing and chain notifications replaced by a synchronous driver; Environment.BlockHeight = 0 as in production; OP_RETURN/aux close outputs outside the alphabet; fixed key material.", ref="§4 C17"),
  "C18": dict(cat="exploration", engine="grid (in-harness)+synctest",
    technique="grid/lattice enumeration with a scenario-independent oracle computed from the transaction bytes and the recorded BumpRequests, full sweeper->aggregator->publisher scenarios run inside testing/synctest bubbles for deterministic quiescence, 3x replay gate before any report",
@@ -74,14 +74,14 @@ CHECKS.update({
 CHECKS.update({
  "C16": dict(cat="model_checking", engine="seqmc+crashdb",
    technique="explicit-state BFS with canonical read-interface keys (engine seqmc) on the real KVStore and SQLStore in lock-step, reference-ledger admission clauses, the transcribed 16-row status table, KV==SQL differential, transaction-granular linearizability via crashdb/TransactionExecutor scheduling hooks, and a free-running (-race) linearizability pass",
-   text="Every payment-store operation sequence (2 hashes, attempt ids 1-4, 3 amounts, 8 MPP/blinded record kinds, all deletes, store re-open) to depth 5 (quick) / 6-7 (thorough) is executed on both real backends; every multi-transaction operation is interleaved with every other operation at its transaction boundary and must be explained by a sequential order.",
+   text="Every payment-store operation sequence (2 hashes, attempt ids 1-4, 3 amounts, 8 MPP/blinded record kinds, all deletes, store re-open) to depth 5 (quick) / 6-7 (thorough) is executed on both real backends; every multi-transaction operation is interleaved with every other operation at its transaction boundary and must be explained by a sequential order. A status-class family starts every delete / query / init / fail letter from a representative state of every row of the status truth table (incl. failure reason + settled or in-flight attempt in both orders) crossed with partner-payment classes.",
    note="Six KV/SQL divergences on contract-edge histories (duplicate or foreign attempt ids, unknown payments) are listed as known findings; SQL means sqlite; goroutine schedules inside one transaction are not enumerated (every operation but KV InitPayment is one transaction; that boundary is enumerated); concurrent RegisterAttempt on one hash is a documented caller obligation.", ref="§4 C16"),
 })
 
 CHECKS.update({
  "C10": dict(cat="exploration", engine="bytemut+evid (lnwire in /repo, tlv inside /repo/tlv)",
    technique="exhaustive byte-level enumeration on the real codecs: all bodies <=2/3 bytes plus every single-byte replacement, truncation, extension, insertion, deletion and BigSize-prefix edit of a deterministic seed corpus (lnwire, crash-isolated GOMAXPROCS=1 workers with exact allocation accounting); all <=3-record TLV streams over structural types x every BigSize form x every order, declared-length lattice to 2^64-1, all primitive decoders and varint forms (tlv), differential against an independent BOLT-1 reference parser and a decode/encode fixpoint oracle",
-   text="Every registered message type and failure code and every tlv entry point is driven through bounded exhaustive input neighbourhoods; acceptance must imply a canonical fixpoint, generated values must round-trip losslessly, TLV acceptance must equal canonicity, and no input may panic or allocate beyond the measured bound.",
+   text="Every registered message type and failure code and every tlv entry point is driven through bounded exhaustive input neighbourhoods; acceptance must imply a canonical fixpoint, generated values must round-trip losslessly, TLV acceptance must equal canonicity, and no input may panic or allocate beyond the measured bound. Every variable-length element of every message (found by reflection: byte slices, strings, lists, feature vectors, address lists over tcp4/tcp6/tor v2/v3/DNS/opaque) is additionally set to its extreme legal lengths (0..3, 251..258, 65531..65536, the encoder limit -2..+1) and must round-trip value -> bytes -> value.",
    note="Four genuine findings on the unchanged tree are listed as known findings (tlv non-p2p lengths >= 2^63, DBigSize ignoring the record length, ExtraData rebuilt without unknown records in 14 message types, QueryShortChanIDs zero-length id list at maximum size); 'all byte strings' is covered through the stated neighbourhoods only; lnwire compiles against the cached tlv@v1.4.0 (identical source), only the tlv half sees /repo/tlv edits; allocation constants are measured maxima x2.", ref="§4 C10"),
 })
 
